@@ -311,3 +311,61 @@ theorem C03_position_after_steps_full_instance : ∃ (o : BOut), ∃ out,
   exact ⟨o, out, h1, h4⟩
 
 end XPathV.Theorems.NonVacuity.C03
+
+/-! ## `PosCond2`: a `Frag2` predicate next to `position()` inside the first predicate
+
+`/r/*[@x < @y and position() = 2]` — the boolean part `@x < @y` compares two paths with `<` (in
+`Frag2`, not in `Frag`), so the condition is in `PosCond2` and not in `PosCond`.  On `d0` it selects
+`{b}`: `b` is the second element child of `r` and `@x` = 2 < 3 = `@y` there. -/
+namespace XPathV.Theorems.NonVacuity.C03
+open XPathV XPathV.Model XPathV.Theorems.NonVacuity XPathV.PosSem XPathV.PosSem3
+open XPathV.PathSem XPathV.PredSem XPathV.PredSem2
+
+attribute [local instance] toyAlg
+
+/-- `[@x < @y and position() = 2]` -/
+def condXYP : Ast := MixShape.andPos.ast bXltY (PosForm.posCmp .eq "" "2").ast
+theorem condXYP_posCond2 : PosCond2 condXYP :=
+  posCond2_mix .andPos _ _ bXltY_frag (posCond2_posCmp .eq "" "2")
+theorem parsed_condXYP : ParsesTo "/r/*[@x < @y and position() = 2]"
+    (.filter (.axis (chE "") qR) condXYP) :=
+  ApiSem.parsesTo_eq (by decide +kernel)
+
+/-- **`C03_position_after_steps_all_full`** on `/r/*[@x < @y and position() = 2]`: all hypotheses
+(`WF`, `nsIface`, `HashInj`, `a.axis = "child"`, `Frag2`, `PosCond2`, `build = .ok`, `validRef`)
+discharged; the result is `{b}` -/
+theorem C03_position_after_steps_all_full_instance : ∃ (o : BOut), ∃ out,
+    sel (F := Int) d0 {} o.q (.node 0) = .ok out ∧ ∀ x, x ∈ refs out ↔ x ∈ [Ref.node 4] := by
+  obtain ⟨o, hb⟩ : ∃ o, build (fun _ => true) 100 true false
+      (.filter (.axis (chE "") qR) condXYP) {} {} = .ok o := exists_ok (by decide +kernel)
+  obtain ⟨out, ns, g, origins, g0, h1, h2, _, h4, _⟩ :=
+    Theorems.C03.C03_position_after_steps_all_full (F := Int)
+      wf_d0 {} rfl hashInj_d0 (fun _ => true) 100 (chE "") rfl qR (frag2_of_frag _ _ qR_frag) condXYP
+      condXYP_posCond2 {} o hb (.node 0) (by decide)
+  have e : Spec.eval (F := Int) d0 (.filter (.axis (chE "") qR) condXYP) ⟨.node 0, 1, 1⟩ =
+      .ok (.val (.nodes [.node 4]) (some [[.node 4]])) := by decide +kernel
+  rw [e] at h2; cases h2
+  exact ⟨o, out, h1, h4⟩
+
+/-- **`C03_bool_with_position_full`** on `/r[count(*) = 3]/*[@x < @y or position() = 3]`: input path
+and boolean part both outside `Frag`; `{b, a[2]}` — `b` by `@x < @y`, the third element child by its
+position -/
+theorem C03_bool_with_position_full_instance : ∃ (o : BOut), ∃ out,
+    sel (F := Int) d0 {} o.q (.node 0) = .ok out ∧
+      ∀ x, x ∈ refs out ↔ x ∈ [Ref.node 4, Ref.node 6] := by
+  obtain ⟨o, hb⟩ : ∃ o, build (fun _ => true) 100 true false
+      (.filter (.axis (chE "") qRc)
+        (MixShape.orPos.ast bXltY (PosForm.posCmp .eq "" "3").ast)) {} {} = .ok o :=
+    exists_ok (by decide +kernel)
+  obtain ⟨out, ns, g, origins, g0, h1, h2, _, h4, _⟩ :=
+    Theorems.C03.C03_bool_with_position_full (F := Int)
+      wf_d0 {} rfl hashInj_d0 (fun _ => true) 100 (chE "") rfl qRc qRc_frag .orPos bXltY bXltY_frag
+      .eq "" "3" {} o hb (.node 0) (by decide)
+  have e : Spec.eval (F := Int) d0 (.filter (.axis (chE "") qRc)
+      (MixShape.orPos.ast bXltY (PosForm.posCmp .eq "" "3").ast)) ⟨.node 0, 1, 1⟩ =
+      .ok (.val (.nodes [.node 4, .node 6]) (some [[.node 4, .node 6]])) := by
+    decide +kernel
+  rw [e] at h2; cases h2
+  exact ⟨o, out, h1, h4⟩
+
+end XPathV.Theorems.NonVacuity.C03
